@@ -115,13 +115,14 @@ where
         if i >= n {
             return Err(ErrorDecodingError::ErrorsOutsideRange);
         }
-        let mut idx = (n - i - 1) * stride;
-        if idx < data.len() {
-            data[idx] = (GF(data[idx]) - *err).into();
-        } else {
-            idx -= data.len();
-            error[idx] = (GF(error[idx]) - *err).into();
-        }
+        // address the codeword through the same strided view the syndromes were computed from
+        let codeword = data
+            .iter_mut()
+            .step_by(stride)
+            .chain(error.iter_mut().step_by(stride))
+            .nth(n - i - 1)
+            .ok_or(ErrorDecodingError::ErrorsOutsideRange)?;
+        *codeword = (GF(*codeword) - *err).into();
     }
 
     Ok(())
